@@ -333,6 +333,8 @@ def build(X):
 
 # ----------------------------------------------------------------------------- replay on the real compiler: programs that must be REJECTED (an error, not SQL, not a panic)
 REJECT = [
+    # a column that a group key or an exclusion entry renames is gone under its old name (round-8 seed C10-15: `k = x` is `x` for the frame's exclusion)
+    "from a\nselect {x, y}\ngroup {k = x} (aggregate {m = max x})\n", "from a\nselect {x, y}\ngroup {k = x} (take 1)\nselect {x}\n", "from a\nselect {x, y}\nselect !{k = x}\nselect {x}\n",
     # a named argument that the callee does not have is an error - also on the exclusion form of std.not (round-7 seed C10-14)
     "from employees\nselect {id, name, salary}\nselect (std.not {salary} keep_nulls:true)\n",
     # a top-level function called from a module function does not see the module's declarations (round-7 seed C10-13)
